@@ -1,4 +1,5 @@
 import GateryModel.C18.Lemmas3
+import GateryModel.C18.Literal
 /-!
 # C18 — property theorems
 
@@ -136,6 +137,12 @@ theorem extract_refines (p : Plane) (n off size : Nat) (h : PreX p off size) (hn
 
 theorem resize_refines (p : Plane) (n m : Nat) (hc : Clean p n) :
     absPlane (resizePlane p m) m = specResize (absPlane p n) m := resize_abs p n m hc
+
+/-- Formatting then parsing (grammar level): the binary text of any four-state vector, read as a `b` literal, denotes that vector. -/
+theorem binary_text_round_trip (bits : List (Option Bool)) :
+    (formatBits bits).all (digitOk 1) = true ∧ specDigits 1 (formatBits bits) none = some bits := by
+  refine ⟨formatBits_digitOk bits, ?_⟩
+  simp [specDigits, literalBits_formatBits]
 
 /-! ### every operation history -/
 
